@@ -69,3 +69,10 @@ prop("C05",
                   "message well-formedness (STATP, count, 4-byte records, last record >= 2 bytes) is a precondition; STATQ datagrams arriving at the client are outside the property",
                   "sequence numbers: contract of get_and_increment_sequence_counter(False) from C16 (assumed here, proved there)"],
      explanation="per-message decode contract incl. stale-buffer independence, exactly one STATQ ack 1..191, per-record step contract of both apply loops (loop cut: one splice per record, in order), threaded buffer cleared; lexical atomicity of the async path")
+
+prop("C17",
+     level="proof",
+     assumptions=["asyncio.wait([f], timeout=d) returns as soon as f is done or after d seconds (assumed contract of the library primitive); no scheduler interleavings are explored",
+                  "set_config_mode is called only after some config_sleep created the wake-up future (the `assert ConfigChange is not None` in the code is taken as its precondition)",
+                  "device-list sizes: 0..6 pump-class devices and 0..1 blower (everything GeckoConstants.DEVICES can produce)"],
+     explanation="full-table copy incl. completeness of CONFIG_MEMBERS against the class attributes; active <=> any pump/blower on; wake-up as a monitor invariant preserved by config_sleep's prefix and established by set_config_mode")
